@@ -116,7 +116,7 @@ def _sibling(ctx, s, ver, sign, vb, vinfo, vt, vdisp, sb, sinfo, st, sdisp, eacc
                 eacc("created_at")(vdisp[1][1]) if vdisp[1][1] else False,
                 eacc("kind")(vdisp[2][1]) if vdisp[2][1] else False,
                 contains_value(vdisp[3][1], eacc("tags")) if vdisp[3][1] else False,
-                contains_value(vdisp[4][1], lambda x: x[0] == "call" and x[1] == escaping.ESCAPE and eacc("content")(x[2][0])) if vdisp[4][1] else False]
+                contains_value(vdisp[4][1], lambda x: x[0] == "call" and x[1] == escaping.ESCAPE and contains_value(x[2][0], eacc("content"))) if vdisp[4][1] else False]
         okp = all(prov)
         s.add("S-ESCFLOW", ver, "verifier-arguments-own-fields", "pubkey,created_at,kind,tags,escape(content)", vinfo["sp"],
               PROVED if okp else VIOLATION,
